@@ -695,3 +695,35 @@ Proof.
   - cbn in H. destruct (Nat.eqb x (pname p)) eqn:E; [apply Nat.eqb_eq in E; right; left; congruence|left; exact H].
   - right. right. exact H.
 Qed.
+
+Lemma bind_unfold {A B} (m : M A) (f : A -> M B) s :
+  bind m f s = match m s with
+               | (Val a, s') => f a s'
+               | (Brk, s') => (Brk, s') | (Cnt, s') => (Cnt, s') | (Ret v, s') => (Ret v, s') | (Fail e, s') => (Fail e, s')
+               end.
+Proof. reflexivity. Qed.
+
+(* a call of Ref, step by step *)
+Lemma eval_call_steps funcs k f args rs :
+  eval funcs (S k) (ECall f args) rs =
+  match find_func f funcs with
+  | None => (Fail EUnbound, rs)
+  | Some fd =>
+      if (Nat.ltb (List.length args) (required (fparams fd))) || (Nat.ltb (List.length (fparams fd)) (List.length args))
+      then (Fail EArity, rs)
+      else match eval_args (eval funcs k) (fparams fd) args rs with
+           | (Val vs, rs1) =>
+               (call_result (fret fd) (fst ((bind_params (eval funcs k) (fparams fd) vs ;;; exec_list (exec funcs k) (fbody fd)) (snd (m_push_frame f rs1)))),
+                pop_frame_st (snd ((bind_params (eval funcs k) (fparams fd) vs ;;; exec_list (exec funcs k) (fbody fd)) (snd (m_push_frame f rs1)))))
+           | (Brk, s') => (Brk, s') | (Cnt, s') => (Cnt, s') | (Ret v, s') => (Ret v, s') | (Fail e, s') => (Fail e, s')
+           end
+  end.
+Proof.
+  rewrite eval_call_eq. destruct (find_func f funcs) as [fd|]; [|reflexivity].
+  destruct (_ || _); [reflexivity|]. rewrite bind_unfold.
+  destruct (eval_args (eval funcs k) (fparams fd) args rs) as [c rs1]. destruct c; try reflexivity.
+  unfold bind at 1. change (m_push_frame f rs1) with (Val tt, snd (m_push_frame f rs1)). lazy beta iota.
+  unfold finally, map_ctl. cbn [snd].
+  destruct ((bind_params (eval funcs k) (fparams fd) a ;;; exec_list (exec funcs k) (fbody fd)) (snd (m_push_frame f rs1))) as [c3 rs3].
+  reflexivity.
+Qed.
